@@ -214,6 +214,15 @@ func (c CodeQuery) Exec(ctx *Context, loc *Location, qc QueryContext, qr QueryRe
 	for _, bs := range qr.Bss {
 		Log(DEBUG, ctx, "CodeQuery.Exec", "script", script, "bs", bs)
 
+		if loc != nil {
+			// For every candidate, not only the first: a
+			// script can leave the context at an ancestor (an
+			// inherited search that fails there), and the next
+			// candidate's script is this location's, too (its
+			// time-out, what its Env functions work on).
+			ctx.SetLoc(loc)
+		}
+
 		var props map[string]interface{}
 		if loc != nil {
 			c := loc.Control()
